@@ -572,6 +572,16 @@ Lemma min_first_restarts : forall h c chs j,
   is_done (s_jobs s) x = false -> key_lt (p, x) (j_prio j, j_serial j) = false.
 Proof. intros h c chs j s. destruct (rreachable_rgood h) as ((_&_&I)&Q&_). apply min_first_state; assumption. Qed.
 
+Lemma prio_fifo_restarts : forall h c chs j,
+  let s := rrun h init in
+  In (ODeliver c chs j) (snd (step s (StartPull c chs))) ->
+  forall k q p x, q_get (s_queues s) k = Some q -> (chs = [] \/ mem k chs = true) -> In (p, x) q ->
+  is_done (s_jobs s) x = false -> j_prio j <= p /\ (p = j_prio j -> j_serial j <= x).
+Proof.
+  intros h c chs j s Hd k q p x Hq Hc Hin Hu. apply key_not_lt_prio_fifo.
+  exact (min_first_restarts h c chs j Hd k q p x Hq Hc Hin Hu).
+Qed.
+
 (* Non-vacuity: jobs 1 (prio 1) and 2 (prio 0) on channel 0 and job 3 on channel 1; worker 1 holds job 2, worker 2 is
    blocked on channel 2 and gets job 4 into its mailbox; restart; then pulls get 2, 1 (channel 0 in priority order), and
    a pull on all channels gets 3 before 4 (equal priority: older first). *)
